@@ -486,7 +486,7 @@ fn metadata_leg(rep: &mut Report) {
         } else if let Some((class, d)) = judge_archive(&out, &source, &cfg, &Comp::None, 64, md, Judge::Format) {
             rep.agg.viol(&class, || detail("library", d));
         } else {
-            accessor_check(&out, rep, &detail);
+            accessor_check(&out, &mut rep.agg, &detail);
         }
         // CLI writer: --metadata-value for valid UTF-8 without NUL, --metadata-file otherwise
         let src = dir.path().join("src.bin");
@@ -511,7 +511,7 @@ fn metadata_leg(rep: &mut Report) {
                     if let Some((class, d)) = judge_archive(&bytes, &source, &cfg, &Comp::None, 64, md, Judge::Format) {
                         rep.agg.viol(&class, || detail("cli", d));
                     } else {
-                        accessor_check(&bytes, rep, &detail);
+                        accessor_check(&bytes, &mut rep.agg, &detail);
                     }
                 }
                 Ok(Err(e)) => rep.agg.viol("valid-compress-failed", || detail("cli", json!(format!("{e:#}")))),
@@ -524,7 +524,7 @@ fn metadata_leg(rep: &mut Report) {
 }
 
 /// bitar::Archive accessors must report what the independent decoder sees.
-fn accessor_check(bytes: &[u8], rep: &mut Report, detail: &dyn Fn(&str, Value) -> Value) {
+pub fn accessor_check(bytes: &[u8], agg: &mut Agg, detail: &dyn Fn(&str, Value) -> Value) {
     let d = match codec::decode(bytes) {
         Ok(d) => d,
         Err(_) => return,
@@ -533,7 +533,7 @@ fn accessor_check(bytes: &[u8], rep: &mut Report, detail: &dyn Fn(&str, Value) -
     let a = match drive_ready(bitar::Archive::try_init(reader)) {
         Ok(Ok(a)) => a,
         _ => {
-            rep.agg.viol("archive-unreadable", || detail("reader", json!("try_init failed")));
+            agg.viol("archive-unreadable", || detail("reader", json!("try_init failed")));
             return;
         }
     };
@@ -575,8 +575,36 @@ fn accessor_check(bytes: &[u8], rep: &mut Report, detail: &dyn Fn(&str, Value) -
             problems.push("metadata_value");
         }
     }
+    // descriptors with absolute offsets
+    let want_descs: Vec<(Vec<u8>, u64, usize, u32)> = d.dict.chunk_descriptors.iter().map(|x| (x.checksum.clone(), d.chunk_data_offset.wrapping_add(x.archive_offset), x.archive_size as usize, x.source_size)).collect();
+    let got_descs: Vec<(Vec<u8>, u64, usize, u32)> = a.chunk_descriptors().iter().map(|x| (x.checksum.to_vec(), x.archive_offset, x.archive_size, x.source_size)).collect();
+    if want_descs != got_descs {
+        problems.push("chunk_descriptors");
+    }
+    let want_cfg = match p.chunking_algorithm {
+        2 => Some(bitar::chunker::Config::FixedSize(p.max_chunk_size as usize)),
+        0 | 1 => {
+            let fc = bitar::chunker::FilterConfig { filter_bits: bitar::chunker::FilterBits::from_bits(p.chunk_filter_bits), min_chunk_size: p.min_chunk_size as usize, max_chunk_size: p.max_chunk_size as usize, window_size: p.rolling_hash_window_size as usize };
+            Some(if p.chunking_algorithm == 0 { bitar::chunker::Config::BuzHash(fc) } else { bitar::chunker::Config::RollSum(fc) })
+        }
+        _ => None,
+    };
+    if want_cfg.as_ref() != Some(a.chunker_config()) {
+        problems.push("chunker_config");
+    }
+    let c = d.dict.chunk_compression.clone().unwrap_or_default();
+    let got_comp = a.chunk_compression().map(|c| format!("{}", c));
+    let want_comp = match c.compression {
+        0 => None,
+        1 => Some(format!("LZMA (level {})", c.compression_level)),
+        2 => Some(format!("zstd (level {})", c.compression_level)),
+        _ => Some(format!("Brotli (level {})", c.compression_level)),
+    };
+    if got_comp != want_comp {
+        problems.push("chunk_compression");
+    }
     if !problems.is_empty() {
-        rep.agg.viol("reader-reports-different-values", || detail("reader", json!(problems)));
+        agg.viol("reader-reports-different-values", || detail("reader", json!(problems)));
     }
 }
 
